@@ -648,21 +648,33 @@ func checkC05(c *Ctx) *report.Result {
 			}
 		}
 	}
-	// ---- H-bug
+	// ---- H-bug (for every opcode byte the fetch may return: the byte after HALT can be anything, HALT itself included)
 	for _, bug := range []bool{true, false} {
-		st := c.quietState(m)
-		im.setIEIF(st, 0, 0)
-		st.SetCell(cpu, ".haltbug", ai.NewConstBool(bug))
-		pcS := c.symCell(st, cpu, ".pc")
-		ev, calls := c.evalCPU(st, m.NextFn, []ai.Value{ptrTo(cpu)}, nil, ai.NewConstInt(8, false, 0x04))
-		pc := c.cellInt(ev.Post, cpu, ".pc")
 		wantOff := int64(1)
 		if bug {
 			wantOff = 0
 		}
-		b, bc := boolConst(c.cellBool(ev.Post, cpu, ".haltbug"))
-		fetchOK := len(calls) >= 1 && !calls[0].Write && calls[0].Addr != nil && calls[0].Addr.HasBase && calls[0].Addr.Base == pcS && calls[0].Addr.Off == 0
-		r.Ob("H-bug", pc != nil && pc.HasBase && pc.Base == pcS && pc.Off == wantOff && bc && !b && fetchOK, fmt.Sprintf("fetch with halt-bug flag %v: PC advances by %d, flag clear afterwards", bug, wantOff), firstPos(c, m.NextFn), fmt.Sprintf("pc' = %s, flag' = %v, opcode fetched at pc %v", ai.ValueString(pc), b, fetchOK))
+		var bad []string
+		n := 0
+		for op := 0; op < 256; op++ {
+			if op == 0xCB {
+				continue
+			}
+			st := c.quietState(m)
+			im.setIEIF(st, 0, 0)
+			st.SetCell(cpu, ".haltbug", ai.NewConstBool(bug))
+			pcS := c.symCell(st, cpu, ".pc")
+			ev, calls := c.evalCPU(st, m.NextFn, []ai.Value{ptrTo(cpu)}, nil, ai.NewConstInt(8, false, int64(op)))
+			n++
+			pc := c.cellInt(ev.Post, cpu, ".pc")
+			b, bc := boolConst(c.cellBool(ev.Post, cpu, ".haltbug"))
+			fetchOK := len(calls) >= 1 && !calls[0].Write && calls[0].Addr != nil && calls[0].Addr.HasBase && calls[0].Addr.Base == pcS && calls[0].Addr.Off == 0
+			if !(pc != nil && pc.HasBase && pc.Base == pcS && pc.Off == wantOff && bc && !b && fetchOK) && len(bad) < 4 {
+				bad = append(bad, fmt.Sprintf("opcode %02X: pc' = %s, flag' = %v, opcode fetched at pc %v", op, ai.ValueString(pc), b, fetchOK))
+			}
+		}
+		r.Ob("H-bug", len(bad) == 0 && n == 255, fmt.Sprintf("fetch with halt-bug flag %v: PC advances by %d, flag clear afterwards, whatever the opcode byte (255 values)", bug, wantOff), firstPos(c, m.NextFn), strings.Join(bad, "; "))
+		r.Instances["H-bug"] += n
 	}
 	// the same with a CB prefix after HALT: the prefix byte is read twice (decoded as CB CB), PC ends one past it
 	for _, bug := range []bool{true, false} {
